@@ -40,6 +40,19 @@ pub const ELEMENTS: &[&str] = &[
     "{{ \"\n", "\" }}", "{{ '\n", "' }}", "{{ ' }}", "{{ \" }}", "{{ x' }}", "{{ x\" }}", "\n", "{% if \"\n", "\" %}",
 ];
 
+/// block openers of the element alphabet with the elements that close them
+const OPENERS: &[(&str, &[&str])] = &[
+    ("{% comment %}", &["{% endcomment %}"]),
+    ("{% raw %}", &["{% endraw %}", "{%- endraw -%}"]),
+    ("{% if x %}", &["{% endif %}"]),
+    ("{% unless x %}", &["{% endunless %}"]),
+    ("{% for i in a %}", &["{% endfor %}"]),
+    ("{% tablerow i in a %}", &["{% endtablerow %}"]),
+    ("{% capture c %}", &["{% endcapture %}"]),
+    ("{% case x %}", &["{% endcase %}"]),
+    ("{% ifchanged %}", &["{% endifchanged %}"]),
+];
+
 struct Parsers {
     stdlib: Parser,
     full: Parser,
@@ -172,6 +185,20 @@ fn element_enumeration(ctx: &mut Ctx, ps: &Parsers) {
             if ctx.mine(hash_str(&text)) {
                 let o = observe(ctx, ps, Config::Stdlib, &text, "element-enum");
                 sample_case(ctx, Config::Stdlib, &text, o);
+                // rejection oracle, definite by construction: the first element opens block X and
+                // no element anywhere is X's closing tag, so X is unclosed whatever else follows
+                if let Some((_, closers)) = OPENERS.iter().find(|(op, _)| *op == ELEMENTS[idx[0]]) {
+                    if !idx.iter().any(|&i| closers.contains(&ELEMENTS[i])) {
+                        ctx.count("fault:block-never-closed");
+                        if o == Outcome::Ok {
+                            ctx.violation(
+                                "accepted-invalid:block-never-closed",
+                                &format!("a template whose outermost block {:?} is never closed was accepted", ELEMENTS[idx[0]]),
+                                || json!({"kind": "parse", "config": "stdlib", "text": text, "fault": "block-never-closed"}),
+                            );
+                        }
+                    }
+                }
             }
             for k in (0..len).rev() {
                 idx[k] += 1;
